@@ -232,7 +232,22 @@ static RouteRes runRoute(const LPModel& M, const NamedLP& user, const Route& r, 
    if(r.scaled == 2)
    {
       // sanity only: the file holds the scaled LP (same shape and pattern, entries differ by the scale factors)
-      if(E.M.m != R.M.m || E.M.n != R.M.n)
+      // (real MPS: an objective-only column whose coefficient is zero to the printed 15 decimals may or may not survive, see
+      // expectedAfterRoundTrip; such columns are allowed to be missing here as well)
+      int ambiguousCols = 0;
+      std::set<std::string> ambiguousNames;
+      if(mps && !r.rational)
+         for(int j = 0; j < E.M.n; j++)
+         {
+            bool entries = false;
+            for(int i = 0; i < E.M.m && !entries; i++) if(E.M.A[i][j] != 0) entries = true;
+            if(!entries && E.M.obj[j] != 0 && qabs(E.M.obj[j]) < Q(2) / Q(1000000000000000LL))
+            {
+               ambiguousCols++;
+               ambiguousNames.insert(E.cn[j]);
+            }
+         }
+      if(E.M.m != R.M.m || R.M.n > E.M.n || R.M.n < E.M.n - ambiguousCols)
       {
          fail("unscale-false:shape", "scaled file has shape " + std::to_string(R.M.m) + "x" + std::to_string(R.M.n) + ", LP has " + std::to_string(
                  E.M.m) + "x" + std::to_string(E.M.n));
@@ -244,6 +259,7 @@ static RouteRes runRoute(const LPModel& M, const NamedLP& user, const Route& r, 
       bool differs = false, pat = true;
       for(int i = 0; i < E.M.m && pat; i++) for(int j = 0; j < E.M.n; j++)
          {
+            if(ri.count(E.rn[i]) && !ci.count(E.cn[j]) && ambiguousNames.count(E.cn[j])) continue;
             if(!ri.count(E.rn[i]) || !ci.count(E.cn[j]))
             {
                pat = false;
